@@ -24,7 +24,7 @@ RULE = (
     "composition laws cast->sum-back and shares*totals.  Configuration signature = (operation, source letters/lengths, request, spelling)"
 )
 
-REGIMES = ["tagged", "dyadic", "real", "taint"]
+REGIMES = ["tagged", "dyadic", "real", "taint", "ints"]
 
 
 def spellings(U, letters, mode):
@@ -108,6 +108,23 @@ def do_source(rec, hub, U, all_letters, la, regimes, rng, tier):
             x.sum_values()
         except Exception:
             pass
+        # operations on DERIVED arrays (results of reductions): their own dimensions decide, nothing of the parent's
+        for keep in gen.ordered_subsets(la)[:: max(1, len(gen.ordered_subsets(la)) // 6)]:
+            if not keep:
+                continue
+            gone = [l for l in la if l not in keep]
+            try:
+                y = x.sum_to(keep[::-1])
+            except Exception:
+                continue
+            for f in ([lambda: y.cumsum(keep[0]), lambda: y.sum_to(keep), lambda: y.sum_over((keep[-1],)), lambda: y.get_shares_over((keep[0],)),
+                       lambda: y[{keep[0]: U[keep[0]].items[0]}], lambda: y.cast_to(gen.dimset(fd, U, la))]
+                      + ([lambda: y.sum_over((gone[0],)), lambda: y.sum_to(keep + (gone[0],)), lambda: y.cumsum(gone[0]), lambda: y.get_shares_over((gone[0],)),
+                          lambda: y.sum_over((U[gone[0]].name,))] if gone else [])):
+                try:
+                    f()
+                except Exception:
+                    pass
         for l in la:
             for inplace in (False, True):
                 try:
@@ -224,7 +241,7 @@ def run(rec, hub, tier, seed, shard, nshards, budget):
         if not budget.ok():
             rec.exhaustive_spaces[space] = False
             break
-        U = gen.universe(fd, dict(zip(letters, patterns[pi])))
+        U = gen.universe(fd, dict(zip(letters, patterns[pi])), rng=case_nprng(seed, "c07.universe", 0, f"{si}.{pi}"))
         rng = case_nprng(seed, "c07.source", 0, f"{si}.{pi}")
         rec.set_case(driver="c07.source", seed=seed, tier=tier, shard=shard, nshards=nshards, idx=si, pattern=pi, a=sources[si])
         do_source(rec, hub, U, letters, sources[si], REGIMES, rng, tier)
@@ -234,7 +251,7 @@ def replay(rec, hub, case):
     fd = hub.fd
     red.register(hub)
     letters, patterns = plan(case.get("tier", "quick"))
-    U = gen.universe(fd, dict(zip(letters, patterns[case["pattern"]])))
+    U = gen.universe(fd, dict(zip(letters, patterns[case["pattern"]])), rng=case_nprng(case["seed"], "c07.universe", 0, f"{case['idx']}.{case['pattern']}"))
     rng = case_nprng(case["seed"], "c07.source", 0, f"{case['idx']}.{case['pattern']}")
     rec.set_case(**case)
     do_source(rec, hub, U, letters, tuple(case["a"]), REGIMES, rng, case.get("tier", "quick"))
